@@ -186,6 +186,23 @@ fn used_qubits(text: &str, with_clone_without_body: bool) -> Result<(), String> 
     if let Ok(expanded) = program.clone().expand_defgate_sequences(|_| true) {
         check("expand_defgate_sequences", &expanded)?;
     }
+    {
+        // placeholders can only be built through the API: one in a calibration (which resolution leaves alone), one in the body
+        use quil_rs::instruction::{CalibrationDefinition, CalibrationIdentifier, Gate, Qubit, QubitPlaceholder};
+        let in_calibration = Qubit::Placeholder(QubitPlaceholder::default());
+        let in_body = Qubit::Placeholder(QubitPlaceholder::default());
+        let mut with_placeholders = program.clone();
+        if let (Ok(g1), Ok(g2)) = (Gate::new("X", vec![], vec![in_calibration.clone()], vec![]), Gate::new("Y", vec![], vec![in_body.clone()], vec![])) {
+            with_placeholders.add_instruction(Instruction::CalibrationDefinition(CalibrationDefinition {
+                identifier: CalibrationIdentifier { modifiers: vec![], name: "PLACEHOLDERCAL".to_string(), parameters: vec![], qubits: vec![Qubit::Fixed(77)] },
+                instructions: vec![Instruction::Gate(g1)],
+            }));
+            with_placeholders.add_instruction(Instruction::Gate(g2));
+            check("placeholders added", &with_placeholders)?;
+            with_placeholders.resolve_placeholders();
+            check("resolve_placeholders", &with_placeholders)?;
+        }
+    }
     if let Ok((expanded, _)) = program.expand_defgate_sequences_with_source_map(|_| true) {
         check("expand_defgate_sequences_with_source_map", &expanded)?;
     }
@@ -206,9 +223,24 @@ fn serialize_repeat(text: &str) -> Result<(), String> {
         let parsed = Program::from_str(text).map_err(|e| format!("{e}"))?;
         distinct.insert(parsed.to_quil().map_err(|e| format!("{e}"))?);
     }
-    // "Within each definition kind, output follows the order in which each definition was first added, and a
-    // redefinition with the same key replaces the earlier one in place": the statements of the text are parsed one
-    // by one to recover the sequence that was added
+    definition_order(text, &first)?;
+    println!("{} distinct serializations of the same instruction sequence", distinct.len());
+    if distinct.len() > 1 {
+        let mut it = distinct.iter();
+        return Err(format!(
+            "the same instruction sequence serialized to {} different texts, e.g.\n--- A\n{}\n--- B\n{}",
+            distinct.len(),
+            it.next().unwrap(),
+            it.next().unwrap()
+        ));
+    }
+    Ok(())
+}
+
+/// "Within each definition kind, output follows the order in which each definition was first added, and a
+/// redefinition with the same key replaces the earlier one in place": the statements of the text are parsed one by one
+/// to recover the sequence that was added (C08; also what calibration matching relies on, C16)
+fn definition_order(text: &str, first: &Program) -> Result<(), String> {
     let mut statements: Vec<String> = vec![];
     for line in text.lines() {
         if line.trim().is_empty() {
@@ -261,16 +293,6 @@ fn serialize_repeat(text: &str) -> Result<(), String> {
     if first.waveforms.iter().map(|(k, v)| (k.clone(), v.clone())).collect::<Vec<_>>() != waves {
         return Err("DEFWAVEFORMs are not listed in the order in which each was first added (redefinitions in place)".to_string());
     }
-    println!("{} distinct serializations of the same instruction sequence", distinct.len());
-    if distinct.len() > 1 {
-        let mut it = distinct.iter();
-        return Err(format!(
-            "the same instruction sequence serialized to {} different texts, e.g.\n--- A\n{}\n--- B\n{}",
-            distinct.len(),
-            it.next().unwrap(),
-            it.next().unwrap()
-        ));
-    }
     Ok(())
 }
 
@@ -310,6 +332,37 @@ fn literal_exact(text: &str) -> Result<(), String> {
 fn name_spelling(text: &str) -> Result<(), String> {
     let program = Program::from_str(text).map_err(|e| format!("input does not parse: {e}"))?;
     let declared: Vec<&String> = program.memory_regions.keys().collect();
+    // gate, label, waveform, frame and pragma names: each must occur in the text as written (same letter case)
+    let words: std::collections::HashSet<&str> = text
+        .split(|c: char| !(c.is_alphanumeric() || c == '_' || c == '-'))
+        .filter(|w| !w.is_empty())
+        .collect();
+    let spelled = |what: &str, name: &str| -> Result<(), String> {
+        if name.split(|c: char| !(c.is_alphanumeric() || c == '_' || c == '-')).all(|part| part.is_empty() || words.contains(part)) {
+            Ok(())
+        } else {
+            Err(format!("{what} `{name}` is not spelled like that anywhere in the text"))
+        }
+    };
+    for instruction in program.to_instructions().iter() {
+        match instruction {
+            Instruction::Gate(g) => spelled("gate name", &g.name)?,
+            Instruction::GateDefinition(g) => spelled("gate definition name", &g.name)?,
+            Instruction::CalibrationDefinition(c) => spelled("calibration name", &c.identifier.name)?,
+            Instruction::WaveformDefinition(w) => spelled("waveform name", &w.name)?,
+            Instruction::Pragma(p) => spelled("pragma name", &p.name)?,
+            Instruction::Pulse(p) => {
+                spelled("frame name", &p.frame.name)?;
+                spelled("waveform name", &p.waveform.name)?;
+            }
+            Instruction::FrameDefinition(f) => spelled("frame name", &f.identifier.name)?,
+            Instruction::Declaration(d) => spelled("region name", &d.name)?,
+            Instruction::Label(quil_rs::instruction::Label { target: quil_rs::instruction::Target::Fixed(l) }) => spelled("label", l)?,
+            Instruction::Jump(quil_rs::instruction::Jump { target: quil_rs::instruction::Target::Fixed(l) }) => spelled("jump target", l)?,
+            Instruction::CircuitDefinition(c) => spelled("circuit name", &c.name)?,
+            _ => {}
+        }
+    }
     for instruction in program.body_instructions() {
         if let Instruction::Gate(gate) = instruction {
             for parameter in &gate.parameters {
@@ -776,6 +829,7 @@ fn subst_signed_zero(text: &str) -> Result<(), String> {
 fn measure_match(text: &str) -> Result<(), String> {
     use quil_rs::instruction::Qubit;
     let program = Program::from_str(text).map_err(|e| format!("input does not parse: {e}"))?;
+    definition_order(text, &program)?;
     let definitions: Vec<_> = program.calibrations.iter_measure_calibrations().collect();
     for instruction in program.body_instructions() {
         let Instruction::Measurement(m) = instruction else { continue };
@@ -1213,6 +1267,7 @@ fn gate_match(text: &str) -> Result<(), String> {
     use quil_rs::expression::Expression;
     use quil_rs::instruction::Qubit;
     let program = Program::from_str(text).map_err(|e| format!("input does not parse: {e}"))?;
+    definition_order(text, &program)?;
     let definitions: Vec<_> = program.calibrations.iter_calibrations().collect();
     for instruction in program.body_instructions() {
         let Instruction::Gate(g) = instruction else { continue };
